@@ -2,7 +2,8 @@
    Property theorems only; proofs live in Proofs/Bracket.v (+ Proofs/Positioned*.v).
 
    Model: Model/Positioned.v (one connection / one channel / one subscription attempt,
-   client subscribe command or server-side Client.Subscribe, positioned or not, joins and
+   client subscribe command, server-side Client.Subscribe or connect-time server-side
+   subscription, positioned or not, joins and
    leaves, publications with and without offset, optional per-channel batching).
    Specification: Model/BracketSpec.v -- over the decoded transport log only:
      AfterStart l : every publication / join / leave push has the subscribe reply or
@@ -56,6 +57,25 @@ Theorem C10_client_after_start_patched : forall c ls s,
   run c init ls = Some s -> AfterStart (log s).
 Proof. intros. apply after_start_spec. eapply c10_client_after_start_patched; eauto. Qed.
 Print Assumptions C10_client_after_start_patched.
+
+(* connect-time server-side subscriptions (ConnectReply.Subscriptions; [c_var c = VConnect] is
+   [client_like]: the subscribe result travels in the connect reply, written before the commit):
+   the same partial statement holds ... *)
+Theorem C10_connect_after_start_partial : forall c ls s,
+  c_var c = VConnect -> c_fix_off0 c = false -> c_batch c = false ->
+  run c init ls = Some s -> no_real_push_before_start (log s) = true.
+Proof.
+  intros c ls s Hv. apply c10_client_after_start_real. unfold client_like. rewrite Hv. reflexivity.
+Qed.
+Print Assumptions C10_connect_after_start_partial.
+
+(* ... and the same refutation: an offset-less publication reaches the transport between the
+   hub registration inside connectCmd and the connect reply *)
+Theorem C10_connect_after_start_refuted_offset0 :
+  exists s, run (mkCfg VConnect false false 0 0 true false false false false false false) init sched_a = Some s
+            /\ ~ C10Spec (log s).
+Proof. apply c10_refute. vm_compute. reflexivity. Qed.
+Print Assumptions C10_connect_after_start_refuted_offset0.
 
 (* server-side Client.Subscribe as it stands ([client_like c = false]: VServer, commit before push): only positioned publications are held back until the
    subscribe push (they sit behind the locked recovery buffer) ... *)
